@@ -84,6 +84,20 @@ def gen_cases(tier, rng):
         for _ in range(npert // 2):
             pts = [list(p) + [rng.randint(-30, 30) for _ in range(3)] for p in q]
             by[2].append({"t": "i", "p": pts})
+    # large configurations: corners of boxes that span most of [1,2) are cospherical; the exact in-sphere determinant
+    # of such points needs the full width of the exact integer type (coordinate differences of 5/8 .. 7/8 of the interval)
+    big = []
+    for (ea, eb, ec) in [(7, 7, 7), (7, 6, 5), (5, 7, 6), (6, 6, 7)]:
+        corners = [(x, y, z) for x in (0, ea) for y in (0, eb) for z in (0, ec)]
+        big += [list(q) for q in itertools.combinations(corners, 5)]
+    rng.shuffle(big)
+    for q in big[:60 if tier == "quick" else 224]:
+        by[1].append({"t": "i", "p": [list(p) + zero for p in q]})
+        for _ in range(4 if tier == "quick" else 12):
+            pts = [list(p) + zero for p in q]
+            i, j = rng.randrange(5), rng.randrange(3)
+            pts[i][3 + j] = rng.choice([1, -1, 3, -9, 100, -300, 300, rng.randint(-300, 300)])
+            by[1].append({"t": "i", "p": pts})
     # fine lattice (unit 2^-25 = 2^27 ulps): products of coordinate differences no longer fit a double, so the
     # floating-point filter really rounds; perturbations of a few ulps on every coordinate, decided at orders 1..5
     by[5] = []
